@@ -9,11 +9,14 @@ import (
 	"context"
 	"encoding/json"
 	"fmt"
+	"io"
 	"math"
 	"os"
 	"regexp"
 	"sort"
 	"strings"
+
+	"github.com/sirupsen/logrus"
 
 	"github.com/atlassian/gostatsd"
 	"github.com/atlassian/gostatsd/pkg/statsd"
@@ -45,9 +48,33 @@ type series struct {
 	Members []string `json:"members,omitempty"`
 }
 
+// configuration as a tree (what viper holds after reading the TOML text rendered from it)
+type cfgVal struct {
+	Kind string   `json:"kind"` // str | list | bool
+	S    string   `json:"s,omitempty"`
+	L    []string `json:"l,omitempty"`
+	B    bool     `json:"b,omitempty"`
+}
+
+type cfgKV struct {
+	Key string `json:"key"`
+	Val cfgVal `json:"val"`
+}
+
+type cfgBlock struct {
+	Name string  `json:"name"`
+	Keys []cfgKV `json:"keys"`
+}
+
+type config struct {
+	Filters *cfgVal    `json:"filters"`
+	Blocks  []cfgBlock `json:"blocks"`
+}
+
 type input struct {
 	Static    []string    `json:"static"`
 	Filters   []rawFilter `json:"filters"`
+	Config    *config     `json:"config,omitempty"` // config stream: the handler is built from TOML text
 	Series    []series    `json:"series"`
 	Events    [][]string  `json:"events"`
 	Forwarded bool        `json:"forwarded"`
@@ -148,6 +175,20 @@ func oracle(in input) string {
 	}
 	sort.Strings(subj)
 	pats := map[string]bool{}
+	if in.Config != nil {
+		// a superset of the pattern strings the configuration can yield: every list item and every
+		// white-space separated field of every string value
+		for _, bl := range in.Config.Blocks {
+			for _, kv := range bl.Keys {
+				cands := append(append([]string{}, kv.Val.L...), strings.Fields(kv.Val.S)...)
+				for _, p := range cands {
+					if re, ok := regexOf(p); ok {
+						pats[re] = true
+					}
+				}
+			}
+		}
+	}
 	for _, f := range in.Filters {
 		for _, l := range [][]string{f.MM, f.EM, f.MT, f.DT} {
 			for _, p := range l {
@@ -201,7 +242,94 @@ func hasDup(xs []string) bool {
 	return false
 }
 
+func tomlString(x string) string {
+	var b strings.Builder
+	b.WriteByte('"')
+	for i := 0; i < len(x); i++ {
+		switch c := x[i]; {
+		case c == '"' || c == '\\':
+			b.WriteByte('\\')
+			b.WriteByte(c)
+		case c == '\t':
+			b.WriteString("\\t")
+		case c < 0x20 || c >= 0x7f:
+			fmt.Fprintf(&b, "\\u%04X", c)
+		default:
+			b.WriteByte(c)
+		}
+	}
+	b.WriteByte('"')
+	return b.String()
+}
+
+func (v cfgVal) toml() string {
+	switch v.Kind {
+	case "str":
+		return tomlString(v.S)
+	case "bool":
+		return hlib.Bool(v.B)
+	}
+	el := make([]string, len(v.L))
+	for i, x := range v.L {
+		el[i] = tomlString(x)
+	}
+	return "[" + strings.Join(el, ", ") + "]"
+}
+
+// TOML renders the configuration file text.
+func (c *config) TOML() string {
+	var b strings.Builder
+	if c.Filters != nil {
+		fmt.Fprintf(&b, "filters = %s\n", c.Filters.toml())
+	}
+	for _, bl := range c.Blocks {
+		fmt.Fprintf(&b, "\n[filter.%s]\n", bl.Name)
+		for _, kv := range bl.Keys {
+			fmt.Fprintf(&b, "%s = %s\n", kv.Key, kv.Val.toml())
+		}
+	}
+	return b.String()
+}
+
+func (v cfgVal) coq() string {
+	switch v.Kind {
+	case "str":
+		return hlib.App("VStr", hlib.Bytes(v.S))
+	case "bool":
+		return hlib.App("VBool", hlib.Bool(v.B))
+	}
+	return hlib.App("VList", hlib.StrList(v.L))
+}
+
+func (c *config) coq() string {
+	if c == nil {
+		return "None"
+	}
+	f := "None"
+	if c.Filters != nil {
+		f = "(Some " + c.Filters.coq() + ")"
+	}
+	bl := make([]string, len(c.Blocks))
+	for i, b := range c.Blocks {
+		kv := make([]string, len(b.Keys))
+		for j, k := range b.Keys {
+			kv[j] = hlib.Pair(hlib.Bytes(k.Key), k.Val.coq())
+		}
+		bl[i] = hlib.Pair(hlib.Bytes(b.Name), hlib.List(kv))
+	}
+	return "(Some " + hlib.App("MkCfg", f, hlib.List(bl)) + ")"
+}
+
+const tomlErr = "harness: configuration text rejected by viper: "
+
 func newHandler(in input, next gostatsd.PipelineHandler) *statsd.TagHandler {
+	if in.Config != nil {
+		th, err := statsd.VerifTagHandlerFromTOML(in.Config.TOML(), next, cp(in.Static))
+		if err != nil {
+			panic(tomlErr + err.Error())
+		}
+		return th
+	}
 	var filters []statsd.Filter
 	for _, f := range in.Filters {
 		conv := func(ps []string) gostatsd.StringMatchList {
@@ -244,6 +372,9 @@ func runOne(em *hlib.Emitter, in input) {
 	next := &capture{}
 	var th *statsd.TagHandler
 	ctorPanic := hlib.Recover(func() { th = newHandler(in, next) })
+	if strings.HasPrefix(ctorPanic, tomlErr) {
+		c.Monitors = append(c.Monitors, ctorPanic)
+	}
 	var evOut [][]string
 	nOut := 0
 	outDump := "[]"
@@ -347,12 +478,19 @@ func runOne(em *hlib.Emitter, in input) {
 	if ctorPanic != "" {
 		evIn, evOut = nil, nil
 	}
-	c.Coq = hlib.App("C10", table, hlib.StrList(in.Static), hlib.List(raws), inDump, strLists(evIn),
+	if in.Config != nil {
+		for _, bl := range in.Config.Blocks {
+			for _, kv := range bl.Keys {
+				npat += len(kv.Val.L) + len(strings.Fields(kv.Val.S))
+			}
+		}
+	}
+	c.Coq = hlib.App("C10", table, hlib.StrList(in.Static), hlib.List(raws), in.Config.coq(), inDump, strLists(evIn),
 		hlib.Bool(ctorPanic != ""), hlib.Bool(next.calls > 0), outDump, strLists(evOut))
 	switch {
 	case ctorPanic != "":
 		c.Class = in.Stream + ":ctor-panic"
-	case len(in.Filters) == 0:
+	case len(in.Filters) == 0 && in.Config == nil:
 		c.Class = in.Stream + ":no-filter"
 	case nOut == 0:
 		c.Class = in.Stream + ":all-dropped"
@@ -361,7 +499,7 @@ func runOne(em *hlib.Emitter, in input) {
 	default:
 		c.Class = in.Stream + ":same-count"
 	}
-	c.Nontrivial = len(in.Filters) >= 1 && npat >= 1 && nIn >= 2 && ctorPanic == "" && (nOut < nIn || cleared)
+	c.Nontrivial = (len(in.Filters) >= 1 || in.Config != nil) && npat >= 1 && nIn >= 2 && ctorPanic == "" && (nOut < nIn || cleared)
 	_ = collided
 	c.Obs = map[string]interface{}{"series_in": nIn, "series_out": nOut, "filters": len(in.Filters), "patterns": npat, "ctor_panic": ctorPanic, "events_out": evOut, "dropped": nIn - kept, "collided": collided}
 	em.Emit(c)
@@ -541,7 +679,128 @@ func genInput(r *hlib.Rand, stream string) input {
 	return in
 }
 
+var oddPatterns = []string{"", "!", "*", "!*", "!!a", "regex:!a", "!regex:a", " a", "a b", "a\tb", "regex:a b", "*a", "a**", "host:* ", " host:*",
+	"!host:*", "!regex:^host:", "regex:", "!regex:", "REGEX:a", "regex:*", "! a"}
+var keyNames = [][]string{{"match-metrics", "Match-Metrics", "MATCH-METRICS"}, {"exclude-metrics", "Exclude-Metrics"}, {"match-tags", "Match-Tags"},
+	{"drop-tags", "DROP-TAGS", "Drop-tags"}}
+var boolSpellings = []string{"true", "false", "T", "F", "1", "0", "TRUE", "True", "FALSE", "yes", "no", "", "on", "t", "tRUE", " true"}
+
+func hasSpace(x string) bool { return x == "" || strings.ContainsAny(x, " \t\n\v\f\r") }
+
+// toConfig turns the drawn filters into a configuration tree in one of the spellings FILTERING.md
+// allows (TOML lists or white-space separated strings, keys and names in any case), plus names
+// without a block, blocks without a name, misspelt keys and odd pattern spellings.
+func toConfig(r *hlib.Rand, fs []rawFilter, bad bool) *config {
+	c := &config{Blocks: []cfgBlock{}}
+	names := []string{}
+	listVal := func(ps []string) (cfgVal, bool) {
+		ps = cp(ps)
+		if r.Chance(1, 4) {
+			ps = append(ps, hlib.Pick(r, oddPatterns))
+		}
+		if bad && r.Chance(1, 6) {
+			ps = append(ps, "regex:"+hlib.Pick(r, badRegexes))
+		}
+		if len(ps) > 0 && r.Chance(1, 4) { // blanks around a list item are part of the pattern
+			i := r.Intn(len(ps))
+			ps[i] = hlib.Pick(r, []string{" " + ps[i], ps[i] + " ", "\t" + ps[i]})
+		}
+		if len(ps) == 0 && r.Chance(2, 3) {
+			return cfgVal{}, false // key absent
+		}
+		splittable := true
+		for _, p := range ps {
+			if hasSpace(p) {
+				splittable = false
+			}
+		}
+		switch {
+		case r.Chance(1, 25):
+			return cfgVal{Kind: "bool", B: r.Bool()}, true
+		case (splittable && r.Chance(1, 2)) || r.Chance(1, 12): // space separated (splits patterns that contain blanks)
+			sep := hlib.Pick(r, []string{" ", " ", "  ", "\t", " \t "})
+			x := strings.Join(ps, sep)
+			if r.Chance(1, 5) {
+				x = " " + x + " "
+			}
+			return cfgVal{Kind: "str", S: x}, true
+		}
+		return cfgVal{Kind: "list", L: ps}, true
+	}
+	boolVal := func(b bool) (cfgVal, bool) {
+		switch r.Intn(8) {
+		case 0:
+			return cfgVal{}, false
+		case 1, 2:
+			return cfgVal{Kind: "str", S: hlib.Pick(r, boolSpellings)}, true
+		case 3:
+			if r.Chance(1, 4) {
+				return cfgVal{Kind: "list", L: []string{"true"}}, true
+			}
+		}
+		return cfgVal{Kind: "bool", B: b}, true
+	}
+	for i, f := range fs {
+		name := fmt.Sprintf("%s%d", hlib.Pick(r, []string{"f", "F", "make-global", "Noisy_Tag", "x"}), i)
+		bl := cfgBlock{Name: name, Keys: []cfgKV{}}
+		lists := [][]string{f.MM, f.EM, f.MT, f.DT}
+		for j, l := range lists {
+			if v, ok := listVal(l); ok {
+				bl.Keys = append(bl.Keys, cfgKV{Key: hlib.Pick(r, keyNames[j]), Val: v})
+			}
+		}
+		if v, ok := boolVal(f.DropMetric); ok {
+			bl.Keys = append(bl.Keys, cfgKV{Key: hlib.Pick(r, []string{"drop-metric", "Drop-Metric"}), Val: v})
+		}
+		if v, ok := boolVal(f.DropHost); ok {
+			bl.Keys = append(bl.Keys, cfgKV{Key: hlib.Pick(r, []string{"drop-host", "DROP-HOST"}), Val: v})
+		}
+		if r.Chance(1, 8) { // a misspelt key is ignored
+			bl.Keys = append(bl.Keys, cfgKV{Key: hlib.Pick(r, []string{"match-metric", "drop_tags", "drop-hosts"}), Val: cfgVal{Kind: "list", L: []string{"*"}}})
+		}
+		for k := len(bl.Keys) - 1; k > 0; k-- {
+			j := r.Intn(k + 1)
+			bl.Keys[k], bl.Keys[j] = bl.Keys[j], bl.Keys[k]
+		}
+		c.Blocks = append(c.Blocks, bl)
+		switch r.Intn(10) {
+		case 0: // block not named in `filters`
+		case 1:
+			names = append(names, strings.ToUpper(name))
+		case 2:
+			names = append(names, strings.ToLower(name))
+		default:
+			names = append(names, name)
+		}
+	}
+	if r.Chance(1, 5) {
+		names = append(names, "ghost") // named, but no [filter.ghost] table
+	}
+	if len(names) > 0 && r.Chance(1, 8) {
+		names = append(names, names[0]) // named twice
+	}
+	if r.Chance(1, 10) { // a table nobody names, possibly with a regex that does not compile
+		c.Blocks = append(c.Blocks, cfgBlock{Name: "unused", Keys: []cfgKV{{Key: "drop-tags", Val: cfgVal{Kind: "list", L: []string{"regex:("}}}, {Key: "drop-metric", Val: cfgVal{Kind: "bool", B: true}}}})
+	}
+	for k := len(names) - 1; k > 0; k-- {
+		if r.Chance(1, 2) {
+			j := r.Intn(k + 1)
+			names[k], names[j] = names[j], names[k]
+		}
+	}
+	switch {
+	case len(names) == 0 && r.Chance(1, 2):
+		c.Filters = nil
+	case r.Chance(1, 2):
+		c.Filters = &cfgVal{Kind: "str", S: strings.Join(names, hlib.Pick(r, []string{" ", "  ", "\t"}))}
+	default:
+		c.Filters = &cfgVal{Kind: "list", L: names}
+	}
+	return c
+}
+
 func main() {
+	logrus.SetOutput(io.Discard) // NewTagHandlerFromViper logs every filter it loads
 	a := hlib.ParseArgs()
 	em := hlib.NewEmitter()
 	defer em.Close()
@@ -553,7 +812,16 @@ func main() {
 			if n%5 == 4 {
 				stream = "boundary"
 			}
-			runOne(em, genInput(r.Fork(), stream))
+			if n%5 == 2 {
+				stream = "config"
+			}
+			rr := r.Fork()
+			in := genInput(rr, stream)
+			if stream == "config" {
+				in.Config = toConfig(rr, in.Filters, rr.Chance(1, 8))
+				in.Filters = []rawFilter{}
+			}
+			runOne(em, in)
 		}
 	case "run":
 		for _, raw := range a.Inputs {
